@@ -31,6 +31,8 @@ pub struct Weights {
     pub drop_range: u32,
     pub clear: u32,
     pub scan: u32,
+    pub iter_open: u32,
+    pub iter_step: u32,
 }
 
 impl Weights {
@@ -54,6 +56,8 @@ impl Weights {
             drop_range: 0,
             clear: 0,
             scan: 0,
+            iter_open: 0,
+            iter_step: 0,
         }
     }
 }
@@ -353,6 +357,20 @@ pub fn op(p: &GenProfile) -> BoxedStrategy<Op> {
         ),
         (w.clear, Just(Op::Clear).boxed()),
         (w.scan, scan_spec(weak).prop_map(Op::Scan).boxed()),
+        (
+            w.iter_open,
+            (bound_spec(), bound_spec(), prop_oneof![3 => Just(0u8), 2 => 2u8..8])
+                .prop_map(|(lo, hi, snap)| Op::IterOpen { lo, hi, snap })
+                .boxed(),
+        ),
+        (
+            w.iter_step,
+            prop_oneof![
+                3 => (any::<u8>(), vec(any::<bool>(), 1..5)).prop_map(|(slot, pops)| Op::IterStep { slot, pops }),
+                1 => (any::<u8>(), any::<bool>()).prop_map(|(slot, front)| Op::IterClose { slot, front }),
+            ]
+            .boxed(),
+        ),
     ];
     alts.retain(|(w, _)| *w > 0);
     proptest::strategy::Union::new_weighted(alts).boxed()
